@@ -77,7 +77,7 @@ def run_lines_e(exe, args, lines, **kw):
 
 def run(ctx):
     quick = ctx.quick()
-    st = family_setup(ctx, PROPS, n_random=6 if quick else 50, tl2_random=False)
+    st = family_setup(ctx, PROPS, n_random=5 if quick else 50, tl2_random=False, objx_random=2 if quick else 15)
     nreq = 5 if quick else 30
     nres = 4 if quick else 12
     stats = {"schemas": 0, "functions": 0, "functions_result_shaped_by_request": 0, "functions_with_typed_path": 0, "requests": 0, "result_values": 0,
@@ -119,9 +119,16 @@ def run(ctx):
             if why:
                 uskip.append({"unit": u.name, "function": name, "why": why})
                 continue
+            rfields = sorted({a["value"] for a in r.get("natArgs") or [] if a["kind"] == "field"})
             for _ in range(nreq):
                 try:
                     q = vg.top(ft)
+                    # the request fields that shape the result should all differ (a permuted nat argument is invisible otherwise)
+                    for _try in range(6):
+                        vals = [q[1][i][1] for i in rfields if q[1][i] is not None]
+                        if len(set(vals)) == len(vals):
+                            break
+                        q = vg.top(ft)
                 except Budget:
                     s_["budget_skips"] += 1
                     break
